@@ -73,8 +73,8 @@ CHECKS = {
          'Trusted: reference readers, networkx/pydot for gml/dot parsing, CrossHair accounting. Outside: arbitrary gml/dot text, texts beyond the menus.',
          'DESIGN.md section 3 C14'),
  'C07': ('CrossHair/z3 non-interference check by self-composition: unseeded random draws and default object reprs are fresh symbolic values in two runs of the same command line; outputs must be equal for all of them',
-         'Bounded symbolic verification over a table of 41 command lines x 4 seeds and 9 seeded library generators: any dependence of the output on randomness drawn before seeding or on object identity is refuted with the two distinguishing values; correct runs are confirmed on their single concrete path.',
-         'Trusted: the two-phase RNG stub (same seed => same stream is assumed), the repr stub. Outside: PYTHONHASHSEED, working directory, command lines not in the table.',
+         'Bounded symbolic verification over a table of 47 command lines x 4 seeds, 9 seeded library generators, 24 library calls with non-default options and 9 dense random requests under non-MT seeded streams: any dependence of the output on randomness drawn before seeding or on object identity is refuted with the two distinguishing values; correct runs are confirmed on their single concrete path.',
+         'Trusted: the two-phase RNG stub (same seed => same stream is assumed), the repr stub. Outside the solver-decided part: PYTHONHASHSEED and the working directory (auxiliary concrete process sweeps over 3 hash seeds / 2 directories, reported separately), command lines not in the table.',
          'DESIGN.md section 3 C07'),
  'C15': ('CrossHair/z3 exploration of ALL outcomes of the random draws (nondeterministic RNG stub, bounded tape) and of numeric arguments across the legal boundary through make_graph_from_spec; deterministic adversarial draw streams for the retry/fallback code',
          'Bounded verification: for the stated small sizes every random outcome yields the promised structure and every out-of-range or non-numeric argument is refused with ValueError; larger requests are covered for six adversarial draw streams only (stated as such).',
